@@ -52,8 +52,52 @@ let pstate s =
   ^ String.concat "" (List.mapi (fun i a ->
       if not a.a_alive then Printf.sprintf " A%d(dead)" i
       else Printf.sprintf " A%d(%d:%s)" i (int_of_nat a.a_known) (String.concat "," (List.map hex_of_n a.a_slots))) s.s_arrs)
+(* ---- T-sched cases: InfoConcDefs.cstep folded over the schedule, then round-robin ---- *)
+let smaxt = 8 and smaxops = 16
+let parse_cop n tok =
+  match String.split_on_char ':' tok with
+  | ["T"; i; v; o] -> let i = int_of_string i in if i < 0 || i >= n then raise Bad else CT (nat_of_int i, n_of_hex v, n_of_hex o)
+  | ["S"; i; v] -> let i = int_of_string i in if i < 0 || i >= n then raise Bad else CS (nat_of_int i, n_of_hex v)
+  | ["G"; i] -> let i = int_of_string i in if i < 0 || i >= n then raise Bad else CG (nat_of_int i)
+  | _ -> raise Bad
+let pcres = function
+  | RT (_, _, r) -> " T=" ^ hex_of_n r
+  | RS (_, _, r) -> " S=" ^ hex_of_n r
+  | RG (_, r, made, dead) ->
+    " G=" ^ hex_of_n r ^ "," ^ (if made = N0 then "-" else hex_of_n made) ^ ",[" ^ String.concat "," (List.map hex_of_n dead) ^ "]"
+let do_sched line =
+  match String.split_on_char '|' line with
+  | [hd; progs; sched] ->
+    (match words hd with
+     | "sched" :: n :: infos ->
+       let n = int_of_string n in
+       if n < 1 || n > maxn || List.length infos <> n then raise Bad;
+       let infos = List.map (fun w -> match String.split_on_char ':' w with
+           | [c; d] -> (n_of_int (int_of_string c), int_of_string d <> 0) | _ -> raise Bad) infos in
+       let progs = List.filter (fun w -> w <> [] || true)
+           (List.map (fun th -> List.map (parse_cop n) (words th))
+              (List.filter (fun th -> th <> "") (String.split_on_char '/' progs))) in
+       if List.length progs > smaxt || List.exists (fun p -> List.length p > smaxops) progs then raise Bad;
+       let nt = List.length progs in
+       let c = ref (cinit infos progs) in
+       List.iter (fun t -> if t >= 0 then c := cstep !c (nat_of_int t)) (ints sched);
+       let rounds = ref 0 and dl = ref false in
+       while not (c_all_done !c) && not !dl do
+         for t = 0 to nt - 1 do c := cstep !c (nat_of_int t) done;
+         incr rounds; if !rounds > 1000 then dl := true
+       done;
+       let c = !c in
+       String.concat " | " (List.mapi (fun t th ->
+           "t" ^ string_of_int t ^ ":" ^ String.concat "" (List.map pcres (List.rev th.c_res))) c.g_thr)
+       ^ " | slots: " ^ String.concat "," (List.map hex_of_n c.g_slots)
+       ^ " | steps:" ^ String.concat "" (List.map (fun th -> " " ^ string_of_int (int_of_nat th.c_steps)) c.g_thr)
+       ^ " | spins:" ^ String.concat "" (List.map (fun th -> " " ^ string_of_int (int_of_nat th.c_spins)) c.g_thr)
+       ^ (if !dl then " <deadlock>" else "")
+     | _ -> raise Bad)
+  | _ -> raise Bad
 let () =
   iter_cases Sys.argv.(1) (fun line ->
+    if String.length line > 6 && String.sub line 0 6 = "sched " then (try do_sched line with _ -> "<bad case>") else
     let rec go s segs = function
       | [] ->
         let fin =
